@@ -30,6 +30,7 @@ from props import routine_world as rw
 unwrap_f = z3.Function("unwrap", Val, Val)
 is_routine_for = z3.Function("is_routine_for", Val, Val, BoolS)
 build = z3.Function("dispatch_build", Val, Val, Val, Val)       # (unwrapped, var, context identity)
+root_of = z3.Function("root_annotation", Val, Val)          # static_order(t)[-1].type: t, or evaluate(t) for a reference (C09 wiring clauses)
 node_type = z3.Function("node_type", IntS, Val)
 node_unw = z3.Function("node_unwrapped", IntS, Val)
 node_var = z3.Function("node_var", IntS, Val)
@@ -123,7 +124,8 @@ def factory_obligations(chk, mod, fname, noop):
         path.assume(Q([IntS], lambda i: z3.Implies(z3.And(i >= 0, i < n), node_unw(i) == unwrap_f(node_type(i))), name="node-unwrapped-is-unwrap-of-type"))
         path.assume(Q([Val], lambda x: unwrap_f(unwrap_f(x)) == unwrap_f(x), trigger=unwrap_f, name="unwrap-idempotent"))
         path.assume(Q([Val, Val, Val], lambda u, v, c: is_routine_for(build(u, v, c), u), trigger=build, name="dispatch-builds-a-routine-for-its-unwrapped-argument"))
-        path.assume(z3.Implies(n > 0, node_type(n - 1) == t))      # the root is the last node (C09)
+        # the root is the last node (C09): the annotation itself, or for a string / ForwardRef argument the type it evaluates to
+        path.assume(z3.Implies(n > 0, node_type(n - 1) == root_of(t)))
         # the factories pre-bind typing.Any to the pass-through routine, which is what the dispatch builds for Any
         # (second entry of the handler tables: isunresolvable -> NoOp*; C15/C17)
         import typing as _t
@@ -149,7 +151,7 @@ def _factory_one(chk, func, pi, path, out, obls, cur):
         chk.add(Ob(func, nm, pid, hy, z3.BoolVal(False), {"outcome": out.kind, "why": str(out.value if out.kind == "unsupported" else out.exc.exc_cls)}))
         return
     r = to_val(out.value)
-    chk.add(Ob(func, nm, pid, hy + [n > 0], is_routine_for(r, unwrap_f(t))))
+    chk.add(Ob(func, nm, pid, hy + [n > 0], is_routine_for(r, unwrap_f(root_of(t)))))
     chk.add(Ob(func, "an-empty-graph-yields-the-no-op-routine", pid, hy + [n == 0], r == z3.Const("noop_routine", Val)))
 
 
